@@ -165,44 +165,50 @@ def keyLabels (alpha : List Nat) : List Nat → Option (List Nat)
 def Trie.keyToLabels (t : Trie) (key : List Nat) : Option (List Nat) :=
   (keyLabels t.alpha key).map (· ++ [t.terminal])
 
-/-- The per-label body of `Trie::insert`; `oracle` = bases returned by the `xcheck` calls still to come. -/
+/-- Base of the current node, allocating one through `xcheck` when it is unused;
+`oracle` = bases returned by the `xcheck` calls still to come. -/
+def insertBase (s : Nodes) (current label : Nat) (oracle : List Nat) : Res (Nodes × Nat × List Nat) :=
+  match s.base current with
+  | some b => .ok (s, b, oracle)
+  | none =>
+    match oracle with
+    | [] => .badOracle
+    | c :: rest =>
+      match s.xcheck [label] c with
+      | .ok b => .ok (s.setBase current (some b), b, rest)
+      | .reject => .reject | .panic => .panic | .badOracle => .badOracle
+
+/-- Follow, or create, the transition `label` of `current` whose base is `b`. -/
+def insertTail (nl : Nat) (s1 : Nodes) (current label b : Nat) (oracle1 : List Nat) :
+    Res (Nodes × Nat × List Nat) :=
+  match s1.check (b + label) with
+  | some n =>
+    if n = current then .ok (s1, b + label, oracle1)
+    else
+      -- move_conflicted, then record the transition
+      match oracle1 with
+      | [] => .badOracle
+      | c :: rest =>
+        match s1.xcheck (s1.findLabelsOf current nl ++ [label]) c with
+        | .ok nb =>
+          match s1.rebase current nb nl with
+          | some s2 =>
+            match s2.recordTransition current label with
+            | some (s3, t) => .ok (s3, t, rest)
+            | none => .panic
+          | none => .panic
+        | .reject => .reject | .panic => .panic | .badOracle => .badOracle
+  | none =>
+    match s1.recordTransition current label with
+    | some (s2, t) => .ok (s2, t, oracle1)
+    | none => .panic
+
+/-- The per-label body of `Trie::insert`. -/
 def insertStep (nl : Nat) (s : Nodes) (current label : Nat) (oracle : List Nat) :
     Res (Nodes × Nat × List Nat) :=
   if current < s.size then
-    -- base of the current node, allocating one through xcheck when unused
-    let withBase : Res (Nodes × Nat × List Nat) :=
-      match s.base current with
-      | some b => .ok (s, b, oracle)
-      | none =>
-        match oracle with
-        | [] => .badOracle
-        | c :: rest =>
-          match s.xcheck [label] c with
-          | .ok b => .ok (s.setBase current (some b), b, rest)
-          | .reject => .reject | .panic => .panic | .badOracle => .badOracle
-    match withBase with
-    | .ok (s1, b, oracle1) =>
-      match s1.check (b + label) with
-      | some n =>
-        if n = current then .ok (s1, b + label, oracle1)
-        else
-          -- move_conflicted, then record the transition
-          match oracle1 with
-          | [] => .badOracle
-          | c :: rest =>
-            match s1.xcheck (s1.findLabelsOf current nl ++ [label]) c with
-            | .ok nb =>
-              match s1.rebase current nb nl with
-              | some s2 =>
-                match s2.recordTransition current label with
-                | some (s3, t) => .ok (s3, t, rest)
-                | none => .panic
-              | none => .panic
-            | .reject => .reject | .panic => .panic | .badOracle => .badOracle
-      | none =>
-        match s1.recordTransition current label with
-        | some (s2, t) => .ok (s2, t, oracle1)
-        | none => .panic
+    match insertBase s current label oracle with
+    | .ok (s1, b, oracle1) => insertTail nl s1 current label b oracle1
     | .reject => .reject | .panic => .panic | .badOracle => .badOracle
   else .reject      -- `base_of(&current)` is None: `return Err(())`
 
